@@ -79,7 +79,7 @@ def runLine (ds : DS) (line : String) : DS × Option String :=
     let wh := whS.toNat!
     if wh == 1 && off == 0 then (ds, some s!"ret={ds.wcur} err=0")
     else
-      let target : Int := if wh == 0 then off else if wh == 1 then (ds.wcur : Int) + off else (ds.maxf : Int) + off
+      let target : Int := if wh == 0 then off else if wh == 1 then (ds.wcur : Int) + off else ((max (openFrames ds.w64) ds.maxf : Nat) : Int) + off   -- SEEK_END: psf->sf.frames
       if wh > 2 || target < 0 then (ds, some "ret=-1 err=E")
       else
         let s := if ds.fix then seekWrite ds.g target.toNat else seekWriteOld ds.g target.toNat
